@@ -34,7 +34,7 @@ CLAIMED = {
          "every reference reachable from the value returned by Packet.Clone / Header.Clone is memory allocated inside Clone or nil, on every path (independence decided through its cause)",
          "value equality of the copied bytes is not decided"),
 }
-CLAIMED.update(json.load(open('/verif/tools/claimed_extra.json')) if __import__('os').path.exists('/verif/tools/claimed_extra.json') else {})
+CLAIMED.update({k: tuple(v) for k, v in json.load(open('/verif/tools/claimed_extra.json')).items()})
 
 NA_REASON = "no check registered yet in this session: the structural clauses planned in DESIGN.md section 4 are not built; the behavioural statement quantifies over runtime values that no static rule built so far decides"
 
